@@ -76,15 +76,35 @@ def worker(spec):
     res = Result()
     interp = "%d.%d" % sys.version_info[:2]
     budget = ctxwork.Budget(spec.get("budget_s", 60))
-    if spec["leg"] == "chains":
+    def chains_leg():
         rng = random.Random(spec["seed"] * 101 + 1)
         specs = chains.enumerate_specs(spec["exhaustive_depth"])
         specs += chains.enumerate_specs(spec["depth"], rng=rng, sample=spec["sample"])
         specs = [s for i, s in enumerate(specs) if i % spec["parts"] == spec["part"]]
+        from vlib import runaway
+        guard = runaway.install(2000000)
         for cs in specs:
             if budget.over():
                 res.count("budget_cut")
                 break
+            guard.reset()
+            try:
+                chain_case(cs)
+            except runaway.Runaway as ex:
+                # decided on steps, not on time: every chain here is finite
+                res.violation(kind="extraction of a finite chain does not terminate", spec=repr(cs), detail=str(ex),
+                              largest_count_on_completed_chains=guard.max_seen, interp=interp)
+                if res.counters.get("violations", 0) >= 5:
+                    break
+                continue
+            res.count("chains")
+        guard.reset()
+        res.counters["max_unwrap_steps_per_chain"] = guard.max_seen
+        res.sample({"leg": "chains", "example_spec": repr(specs[-1]) if specs else None})
+        return res
+
+    def chain_case(cs):
+        if True:
             t = chains.Target(cs)
             j = 0
             while t.step():
@@ -120,9 +140,9 @@ def worker(spec):
                 except Exception as ex:
                     res.violation(kind="extract_outermost raised the wrong thing", error=repr(ex), interp=interp)
             t.close()
-            res.count("chains")
-        res.sample({"leg": "chains", "example_spec": repr(specs[-1]) if specs else None})
-        return res
+
+    if spec["leg"] == "chains":
+        return chains_leg()
 
     # ---- other targets ------------------------------------------------------------------------
     from stackscope import unwrap_stackitem
